@@ -317,6 +317,19 @@ class Explorer(object):
             self.rewrites += 1
             return True
         if self._check(z3.Not(cond)):
+            # prefer a counterexample made of "nice" (exactly representable) values when one exists
+            for hint in getattr(self, 'hints', []):
+                try:
+                    saved_t = self.solver_timeout_ms
+                    self.solver_timeout_ms = min(saved_t, 20000)
+                    if self._check(z3.Not(cond), hint):
+                        break
+                except Inconclusive:
+                    pass
+                finally:
+                    self.solver_timeout_ms = saved_t
+            else:
+                self._check(z3.Not(cond))
             m = self._model()
             inputs = {k: _pyval(m.eval(t, model_completion=True)) for k, t in self.inputs.items()}
             self._violation(label, inputs, detail() if callable(detail) else detail)
@@ -378,6 +391,7 @@ class Explorer(object):
                 self.inputs = {}
                 self._fresh = 0
                 self.detail = None
+                self.hints = []
                 self.solver.push()
                 try:
                     fn(self)
@@ -1476,6 +1490,32 @@ class ZB(Z):
         raise Unsupported('floor division of a bounded symbolic int')
 
     __mod__ = __rfloordiv__ = __rmod__ = __truediv__ = __rtruediv__ = __floordiv__
+
+    # bitwise operators on Python ints (two's complement of unbounded width = sign-extended vector)
+    def __and__(self, o):
+        return self._ar(o, lambda a, b: a & b)
+    __rand__ = __and__
+
+    def __or__(self, o):
+        return self._ar(o, lambda a, b: a | b)
+    __ror__ = __or__
+
+    def __xor__(self, o):
+        return self._ar(o, lambda a, b: a ^ b)
+    __rxor__ = __xor__
+
+    def __invert__(self):
+        return ZB(~self.v)
+
+    def __lshift__(self, n):
+        if isinstance(n, Z):
+            n = n.concretize()
+        return ZB(self.v << int(n))
+
+    def __rshift__(self, n):
+        if isinstance(n, Z):
+            n = n.concretize()
+        return ZB(self.v >> int(n))
 
     def _cmp(self, o, op):
         w = ZB._w(o)
